@@ -990,8 +990,8 @@ Proof.
   constructor; cbn; auto. discriminate.
 Qed.
 
-Lemma Inv_mk : forall objs br st p wt um b,
-  Inv' objs br st -> Inv (mkWorld objs br st p wt um b).
+Lemma Inv_mk : forall objs br st p wt um b a,
+  Inv' objs br st -> Inv (mkWorld objs br st p wt um b a).
 Proof. intros. apply Inv_iff. assumption. Qed.
 
 Lemma exec_w0_inv : forall w t,
@@ -1036,7 +1036,7 @@ Proof.
       apply Inv_iff in Hi1 as [Hok1 [Hbr1 _]].
       apply state_commit_ok in Ec as [Hok' [He' Hs']]; [|exact Hok1|].
       * assert (Hfin : forall x, Inv (mkWorld objs' (if o_set_head (t_opts t) then th else w_branch w1)
-                                     (Some so) (exec_prefs (w_prefs w1) (t_updated t)) wt' um' x)).
+                                     (Some so) (exec_prefs (w_prefs w1) (t_updated t)) wt' um' x (w_apc w1))).
         { intros x. apply Inv_mk. split; [exact Hok'|]. split; [|eauto].
           destruct (o_set_head (t_opts t)).
           - eapply is_plain_ext; [exact He'|]. eapply is_plain_ext; eauto.
